@@ -329,3 +329,10 @@ func (ine *InExpression) String() string {
 
 	return out.String()
 }
+
+// evaluatedExpression is an expression that was already evaluated, it is used
+// to evaluate the right-hand sides of an update before applying its actions
+type evaluatedExpression struct {
+	Expression
+	value Object
+}
